@@ -36,6 +36,7 @@ def signature(case, idx, verdict):
 
 def check(ctx):
     vlib.prove(ctx, ["KrillModel.Props.C12"])
+    pc.private_kmodel(ctx)
     found = False
     if vlib.build_harness(ctx, ["proto"]):
         n, length = (14, 26) if ctx.tier == "quick" else (96, 60)
